@@ -19,7 +19,7 @@
    changes, all other elements and their order stay"). *)
 From Coq Require Import List ZArith Bool Arith Lia.
 From SC Require Import Base.Res Base.PyList Inst.Heap Inst.ClassTable Inst.Model Inst.Canon Inst.Abs
-  Inst.SpecHelpers Inst.ElemProofs Inst.RefineProofs Inst.CopyProofs Inst.ElemRefine Inst.ElemRefine2 Inst.ElemRefine3 Inst.ElemRefine4 Inst.ElemRefine5 Inst.ElemRefine6 Inst.ElemRefine7 Inst.ElemRefine8 Inst.ElemRefine9 Inst.ElemRefine10 Inst.ElemRefine11 Inst.ElemRefineGuard.
+  Inst.SpecHelpers Inst.ElemProofs Inst.RefineProofs Inst.CopyProofs Inst.ElemRefineDep Inst.ElemRefine Inst.ElemRefine2 Inst.ElemRefine3 Inst.ElemRefine4 Inst.ElemRefine5 Inst.ElemRefine6 Inst.ElemRefine7 Inst.ElemRefine8 Inst.ElemRefine9 Inst.ElemRefine10 Inst.ElemRefine11 Inst.ElemRefineGuard.
 Import ListNotations.
 Open Scope nat_scope.
 
@@ -241,7 +241,7 @@ Theorem C06_list_without_item_refines_partial :
   end.
 Proof.
   intros ct h0 l a c d k sp s lc xs ity Hl Hc Ha Hd Hfz Hni Hty Hdep Hfld Hlc Hxs Hflat Hsh voi bi Hv.
-  exact (without_item_list_inplace_refines ct h0 l a c d k sp s lc xs ity Hl Hc Ha Hd Hfz Hni Hty Hdep Hfld Hlc Hxs Hflat Hsh voi bi Hv).
+  exact (without_item_list_inplace_refines ct h0 l a c d k sp s lc xs ity Hl Hc Ha Hd Hfz (no_inval_no_dep k a Hni) Hty Hdep Hfld Hlc Hxs Hflat Hsh voi bi Hv).
 Qed.
 
 (* PROVED (C06_list_transform_item_refines_partial, C06_list_update_item_refines_partial):
@@ -280,7 +280,7 @@ Theorem C06_list_transform_item_refines_partial :
   end.
 Proof.
   intros ct h0 l a c d k sp s lc xs ity Hl Hc Ha Hd Hfz Hni Hty Hdep Hfld Hlc Hxs Hflat Hsh voi fo bi Hv Hm Hfa Hfo Hid.
-  exact (transform_item_list_inplace_refines ct h0 l a c d k sp s lc xs ity Hl Hc Ha Hd Hfz Hni Hty Hdep Hfld Hlc Hxs Hflat Hsh voi fo bi Hv Hm Hfa Hfo Hid).
+  exact (transform_item_list_inplace_refines ct h0 l a c d k sp s lc xs ity Hl Hc Ha Hd Hfz (no_inval_no_dep k a Hni) Hty Hdep Hfld Hlc Hxs Hflat Hsh voi fo bi Hv Hm Hfa Hfo Hid).
 Qed.
 
 Theorem C06_list_update_item_refines_partial :
@@ -303,7 +303,7 @@ Theorem C06_list_update_item_refines_partial :
   end.
 Proof.
   intros ct h0 l a c d k sp s lc xs ity Hl Hc Ha Hd Hfz Hni Hty Hdep Hfld Hlc Hxs Hflat Hsh voi v bi Hp Hs Hv Hm Hnv Hid.
-  exact (update_item_list_inplace_refines ct h0 l a c d k sp s lc xs ity Hl Hc Ha Hd Hfz Hni Hty Hdep Hfld Hlc Hxs Hflat Hsh voi v bi Hp Hs Hv Hm Hnv Hid).
+  exact (update_item_list_inplace_refines ct h0 l a c d k sp s lc xs ity Hl Hc Ha Hd Hfz (no_inval_no_dep k a Hni) Hty Hdep Hfld Hlc Hxs Hflat Hsh voi v bi Hp Hs Hv Hm Hnv Hid).
 Qed.
 
 (* PROVED (C06_dict_with_item_refines_partial, C06_dict_without_item_refines_partial):
@@ -334,7 +334,7 @@ Theorem C06_dict_with_item_refines_partial :
   end.
 Proof.
   intros ct h0 l a c d k sp s lc kvs tk tv Hl Hc Ha Hd Hfz Hni Hty Hdk Hdv Hfld Hlc Hkvs Hflat Hsh key v Hp Hs Hk Hv.
-  exact (with_item_dict_inplace_refines ct h0 l a c d k sp s lc kvs tk tv Hl Hc Ha Hd Hfz Hni Hty Hdk Hdv Hfld Hlc Hkvs Hflat Hsh key v Hp Hs Hk Hv).
+  exact (with_item_dict_inplace_refines ct h0 l a c d k sp s lc kvs tk tv Hl Hc Ha Hd Hfz (no_inval_no_dep k a Hni) Hty Hdk Hdv Hfld Hlc Hkvs Hflat Hsh key v Hp Hs Hk Hv).
 Qed.
 
 Theorem C06_dict_without_item_refines_partial :
@@ -355,7 +355,7 @@ Theorem C06_dict_without_item_refines_partial :
   end.
 Proof.
   intros ct h0 l a c d k sp s lc kvs tk tv Hl Hc Ha Hd Hfz Hni Hty Hfld Hlc Hkvs Hflat Hsh key Hk.
-  exact (without_item_dict_inplace_refines ct h0 l a c d k sp s lc kvs tk tv Hl Hc Ha Hd Hfz Hni Hty Hfld Hlc Hkvs Hflat Hsh key Hk).
+  exact (without_item_dict_inplace_refines ct h0 l a c d k sp s lc kvs tk tv Hl Hc Ha Hd Hfz (no_inval_no_dep k a Hni) Hty Hfld Hlc Hkvs Hflat Hsh key Hk).
 Qed.
 
 (* PROVED (C06_set_with_item_refines_partial, C06_set_without_item_refines_partial):
@@ -387,7 +387,7 @@ Theorem C06_set_with_item_refines_partial :
   end.
 Proof.
   intros ct h0 l a c d k sp s lc xs ity Hl Hc Ha Hd Hfz Hni Hty Hdep Hfld Hlc Hxs Hflat Hsh v Hp Hs Hv Hkf.
-  exact (with_item_set_inplace_refines ct h0 l a c d k sp s lc xs ity Hl Hc Ha Hd Hfz Hni Hty Hdep Hfld Hlc Hxs Hflat Hsh v Hp Hs Hv Hkf).
+  exact (with_item_set_inplace_refines ct h0 l a c d k sp s lc xs ity Hl Hc Ha Hd Hfz (no_inval_no_dep k a Hni) Hty Hdep Hfld Hlc Hxs Hflat Hsh v Hp Hs Hv Hkf).
 Qed.
 
 Theorem C06_set_without_item_refines_partial :
@@ -408,18 +408,20 @@ Theorem C06_set_without_item_refines_partial :
   end.
 Proof.
   intros ct h0 l a c d k sp s lc xs ity Hl Hc Ha Hd Hfz Hni Hty Hfld Hlc Hxs Hflat Hsh voi Hv.
-  exact (without_item_set_inplace_refines ct h0 l a c d k sp s lc xs ity Hl Hc Ha Hd Hfz Hni Hty Hfld Hlc Hxs Hflat Hsh voi Hv).
+  exact (without_item_set_inplace_refines ct h0 l a c d k sp s lc xs ity Hl Hc Ha Hd Hfz (no_inval_no_dep k a Hni) Hty Hfld Hlc Hxs Hflat Hsh voi Hv).
 Qed.
 
 (* The nine refinement theorems above under ONE computable side condition
    (Inst/ElemRefineGuard.v): elem_guard ct s l a kind = true says that l is a flat instance of an
-   unfrozen class without invalidated_by whose attribute a is declared List / Dict / Set and
+   unfrozen class in which no attribute is invalidated by a (nor by '*'), whose attribute a is
+   declared List / Dict / Set and
    holds, unshared, a list / dict / set of scalars; plain_items: no item preparer and no spec
    element type; proper_elems: no sentinel object inside the list; by_value_ok / set_key_free:
    see above.  refines_spec: the model run and spec_helper agree on the result state (the
    receiver itself is returned) and on the error class, and an error leaves the heap alone.
    STILL MISSING for the full statement: keywords / spec elements (key promotion), nested
-   receivers, in-place calls on a shared container, classes with invalidated_by.
+   receivers, in-place calls on a shared container, attributes that other attributes are
+   invalidated by.
    (The copy-on-write flag of with_/without_<item> is C06_elem_helpers_copy_refine_guarded_partial.) *)
 Theorem C06_elem_helpers_refine_guarded_partial : forall ct h0 s l a,
   (* lists *)
@@ -488,6 +490,9 @@ Example C06_guard_examples :
   let S := OSet [VInt 2; VInt 0] in
   elem_guard ex_ct ex_state 0 1 KList = true /\ elem_guard ex_ct ex_state 0 2 KDict = true /\
   elem_guard ex_ct ex_state 0 3 KSet = true /\
+  (* a class with `n: int = Attr(default=0, invalidated_by=["m"])`: xs and t are within the guard, m is not *)
+  elem_guard ex_ct_dep ex_state 0 1 KList = true /\ elem_guard ex_ct_dep ex_state 0 3 KSet = true /\
+  elem_guard ex_ct_dep ex_state 0 2 KDict = false /\ copy_guard ex_ct_dep ex_state 0 1 KList = true /\
   plain_items ex_ct ex_state 0 1 = true /\ plain_items ex_ct ex_state 0 2 = true /\ plain_items ex_ct ex_state 0 3 = true /\
   proper_elems ex_state 0 1 = true /\
   by_value_ok ex_ct ex_state 0 1 (VInt 0) None = true /\ by_value_ok ex_ct ex_state 0 1 (VBool true) (Some true) = true /\
@@ -520,8 +525,8 @@ Proof. vm_compute. repeat split. Qed.
 
 (* THE COPY-ON-WRITE FLAG (Inst/ElemRefine6.v).  with_<item> / without_<item> called WITHOUT
    _inplace on a flat receiver -- of a FROZEN class or not -- under the computable side
-   condition copy_guard (flat receiver that is not being initialised; class without
-   invalidated_by, do_not_copy and __post_copy__ hook; attribute a declared List / Dict / Set and
+   condition copy_guard (flat receiver that is not being initialised; class in which
+   nothing is invalidated by a, without do_not_copy and __post_copy__ hook; attribute a declared List / Dict / Set and
    holding a list / dict / set of scalars, possibly shared with another attribute).
    copy_refines_spec: the call returns a FRESH instance (a cell beyond the old heap), NO cell of
    the old heap changes (receiver, its containers and everything else keep their content), and
@@ -625,7 +630,7 @@ Example C06_copy_guard_examples :
 Proof. vm_compute. repeat split. Qed.
 
 (* "CREATING THE CONTAINER WHEN IT IS MISSING" (Inst/ElemRefine8.v).  missing_guard: flat
-   receiver of an unfrozen class without invalidated_by whose attribute a is declared List /
+   receiver of an unfrozen class in which nothing is invalidated by a, whose attribute a is declared List /
    Dict / Set and holds nothing (no entry in the instance, no class-level default).
    with_<item> in place creates the empty container, edits it and stores it: the abstraction
    of the receiver afterwards is spec_helper's result (which starts from the empty container);
